@@ -103,6 +103,7 @@ def cone_rule(repo, chk, R):
                 how, parent.split(':')[-1], dist, '' if dist == 1 else 's', refname)
         R.run('DEPS', template_check, repo, chk, 'DEPS', q, name, what, text)
         n += 1
+    chk.cone_functions = set(cone)
     chk.cone = {'depth': depth, 'functions': len(cone), 'compared': n, 'already_compared_by_own_rules': len(set(cone) & done), 'without_reference': without, 'functions_without_reference': missing}
 
 
